@@ -380,6 +380,9 @@ func (c *Conn) Read(p []byte) (int, error) {
 			c.rbuf = c.rbuf[n:]
 			c.mu.Unlock()
 			c.peer.credit(n)
+			// the read has completed; what the caller does with the data may be
+			// overtaken by other goroutines (optional schedule point)
+			simrt.Yield("netread-done " + c.Name())
 			return n, nil
 		}
 		if c.rEOF {
